@@ -98,7 +98,7 @@ def smoothed_case(draw):
         "n": n,
         "m": m,
         "vaxis": draw(st.integers(0, 2)),
-        "voxel_nm": draw(st.sampled_from([1.0, 20.0, 50.0, 330.0, 1000.0])),
+        "voxel_nm": draw(st.sampled_from([1.0, 20.0, 50.0, 330.0, 1000.0, 2500.0, 8000.0])),
         "voxel_other_nm": draw(st.sampled_from([20.0, 50.0, 75.0])),
         "kind": draw(st.sampled_from(["wave", "wave", "wave", "random", "constant", "binary", "dust", "dust",
                                  "wave+dust", "ramp", "tail", "tail"])),
